@@ -18,9 +18,11 @@ if TYPE_CHECKING:
 try:
     from execnet.gateway_base import Message
     from execnet.gateway_base import Popen2IO
+    from execnet.gateway_base import RemoteError
 except ImportError:
     from __main__ import Message  # type: ignore[no-redef]
     from __main__ import Popen2IO  # type: ignore[no-redef]
+    from __main__ import RemoteError  # type: ignore[no-redef]
 
 from functools import partial
 
@@ -156,7 +158,12 @@ class ProxyIO:
     def read(self, nbytes: int) -> bytes:
         # TODO(typing): The IO protocol requires bytes here but ChannelFileRead
         # returns str.
-        return self.iochan_file.read(nbytes)  # type: ignore[return-value]
+        try:
+            return self.iochan_file.read(nbytes)  # type: ignore[return-value]
+        except RemoteError as exc:
+            # the forwarding side failed (e.g. on writing to a dead sub):
+            # the proxied connection is lost
+            raise EOFError(f"proxied connection lost: {exc}") from None
 
     def write(self, data: bytes) -> None:
         self.iochan.send(data)
